@@ -122,6 +122,39 @@ func genRequest(g *gen.G, mode string, d, b int) request {
 	return request{"POST", doc, "params:" + class, hash}
 }
 
+func clip(b []byte) string {
+	if len(b) > 160 {
+		return string(b[:160]) + "…"
+	}
+	return string(b)
+}
+
+// uniqueFailure: a failing request whose error text is its own.  Even slots: malformed JSON with a
+// distinct offending character; odd slots: a well-formed batch with a distinct wrong number of
+// identity commitments.
+func uniqueFailure(g *gen.G, mode string, d, b, slot int) request {
+	if slot%2 == 0 {
+		ch := "abcdeghijklmopqrsuvwxyzABCDEFGHIJKLMNOPQRSTUVWXYZ"[(slot/2+g.Intn(40))%49]
+		return request{"POST", []byte(fmt.Sprintf(`{"inputHash":"0x1","preRoot":%c%d}`, ch, slot)), "unique:bad-char", nil}
+	}
+	extra := 1 + slot/2 + g.Intn(3)*8
+	var doc []byte
+	if mode == server.InsertionMode {
+		p, _ := batchgen.Insertion(g, d, b)
+		for i := 0; i < extra; i++ {
+			p.IdComms = append(p.IdComms, *big.NewInt(int64(i + 1)))
+		}
+		doc, _ = json.Marshal(p)
+	} else {
+		p, _ := batchgen.Deletion(g, d, b)
+		for i := 0; i < extra; i++ {
+			p.IdComms = append(p.IdComms, *big.NewInt(int64(i + 1)))
+		}
+		doc, _ = json.Marshal(p)
+	}
+	return request{"POST", doc, "unique:wrong-count", nil}
+}
+
 func do(client *http.Client, url string, rq request) (int, []byte, error) {
 	req, err := http.NewRequest(rq.method, url, bytes.NewReader(rq.body))
 	if err != nil {
@@ -252,14 +285,23 @@ func main() {
 			time.Sleep(20 * time.Millisecond)
 		}
 		var tally []string
+		round := 0
 		for done := 0; done < *n; {
 			k := *conc
 			if k > *n-done {
 				k = *n - done
 			}
 			reqs := make([]request, k)
+			round++
+			errorRound := *burst && round%3 == 0
 			for i := range reqs {
 				reqs[i] = genRequest(g, mode, *d, *b)
+				if errorRound {
+					// every request of this round fails, in one of two classes, each with a message of
+					// its own (a character / a count that appears in the error text)
+					reqs[i] = uniqueFailure(g, mode, *d, *b, i)
+					continue
+				}
 				if *burst && i < k-2 {
 					// mostly valid batches: isolation failures show as a valid request answered with an error
 					for tries := 0; tries < 50 && reqs[i].class != "params:valid"; tries++ {
@@ -283,6 +325,7 @@ func main() {
 			}
 			results := make([]string, k)
 			statuses := make([]int, k)
+			bodies := make([][]byte, k)
 			offsets := make([]time.Duration, k)
 			for i := range offsets {
 				offsets[i] = time.Duration(g.Intn(30)) * time.Millisecond
@@ -300,6 +343,7 @@ func main() {
 					}
 					st, body, err := do(client, url, reqs[i])
 					statuses[i] = st
+					bodies[i] = body
 					results[i] = classify(mode, ps, reqs[i], st, body, err)
 				}(i)
 			}
@@ -317,6 +361,38 @@ func main() {
 				emit(fmt.Sprintf("scrape-during-load\t%d", k), res)
 			}
 			wg.Wait()
+			if k > 1 {
+				// isolation oracle for error responses: the same request served alone, twice.  If the
+				// two answers alone agree with each other (the text is a function of the request) the
+				// answer given under concurrency must be that text too.
+				for i := range reqs {
+					if statuses[i] != 400 && statuses[i] != 500 {
+						continue
+					}
+					s1, b1, e1 := do(client, url, reqs[i])
+					s2, b2, e2 := do(client, url, reqs[i])
+					for _, s := range []int{s1, s2} {
+						if s != 0 {
+							tally = append(tally, fmt.Sprintf("%s:%d", reqs[i].method, s))
+						}
+					}
+					if e1 != nil || e2 != nil || s1 != s2 || !bytes.Equal(b1, b2) {
+						bump("alone-replay:not-deterministic")
+						continue
+					}
+					if bytes.Contains(b1, []byte("constraint #")) {
+						// the solver reports whichever unsatisfied constraint its worker pool meets first:
+						// not a function of the request when several fail in one level
+						bump("alone-replay:solver-message-skipped")
+						continue
+					}
+					bump("alone-replay:compared")
+					if s1 != statuses[i] || !bytes.Equal(b1, bodies[i]) {
+						results[i] += fmt.Sprintf(" [answer under concurrency differs from the answer the same request gets alone: %d %q vs %d %q]",
+							statuses[i], clip(bodies[i]), s1, clip(b1))
+					}
+				}
+			}
 			for i := range reqs {
 				bump("class:" + reqs[i].class)
 				bump("result:" + strings.SplitN(results[i], ":", 2)[0])
